@@ -7,7 +7,7 @@ value.  Not decided: serde/HashMap behaviour (trusted)."""
 import re
 
 from engine.mir import E, apath, strip_refs, is_const, const_val, callee_name, self_path
-from engine.analyses import (leaf_assign, switches_on, chain, format_parts, truth_table, contains_call,
+from engine.analyses import (peel_conv, leaf_assign, switches_on, chain, format_parts, truth_table, contains_call,
                              enumerate_paths, path_return, direct_writes, ModSets, guards_of)
 from engine.report import site_of
 from engine import tables
@@ -174,7 +174,8 @@ def run(ctx):
     if len(disp) != 1:
         r2.undecidable("display", "Display for the plane enum not found uniquely")
     else:
-        b = prog.body(disp[0])
+        from . import roles as _roles4
+        b = _roles4.ib(prog, disp[0])           # a private name function (`as_str`) the Display impl forwards to is spliced in
         adt = [a for p, a in prog.adts.items() if p.endswith("LayoutModifiers")]
         vnames = [v["name"] for v in adt[0]["variants"]] if adt else []
         from engine.analyses import sym_paths, PathLimit
@@ -222,6 +223,24 @@ def run(ctx):
             if callee_name(t).endswith("::get") and "HashMap" in callee_name(t):
                 key_e = strip_refs(b.expr_operand(t["args"][1]))
                 fp = format_parts(b, key_e)
+                if fp is None and key_e.k == "call" and isinstance(key_e.a[2], int) and b.blocks[key_e.a[2]]["term"]["k"] == "call":
+                    # the same name assembled in place: String::with_capacity + push_str / push
+                    from engine.analyses import built_string_parts, merge_literal_parts
+                    fp = built_string_parts(b, b.blocks[key_e.a[2]]["term"]["dest"]["l"])
+                    if fp is not None:
+                        fp = merge_literal_parts(fp)
+                if fp is not None:
+                    # the plane written through a private name function of the plane enum: that function must name the planes like Display does
+                    fp2 = []
+                    for x in fp:
+                        if x[0] == "val":
+                            xv = peel_conv(x[1])
+                            if xv.k == "call" and xv.a[0] in prog.fns and len(xv.a[1]) == 1 and "LayoutModifiers" in ((prog.fns[xv.a[0]].get("impl") or {}).get("self") or "") \
+                                    and xv.a[0] in (_roles4.ib(prog, disp[0]).fn.get("inlined") or []) if len(disp) == 1 else False:
+                                fp2.append(("val", peel_conv(xv.a[1][0])))
+                                continue
+                        fp2.append(x)
+                    fp = fp2
                 if fp is None:
                     r2.undecidable("lookup-format", "lookup key is not a format! string: %r" % (key_e,), site_of(b, bb))
                     found = True
